@@ -53,7 +53,7 @@ COMPONENTS = {
     "stub": ["file system (SimFS)", "raw byte stream (SimRaw)", "process exit (SystemExit trap)",
              "time (step clock on Base.__new__ + wall watchdog)"],
 }
-PROBES = ["include_dimension", "focused_single_token_fault", "decode_handler_fired", "short_read_split_multibyte", "trunc_inside_literal",
+PROBES = ["file_changed_between_opens", "include_dimension", "focused_single_token_fault", "decode_handler_fired", "short_read_split_multibyte", "trunc_inside_literal",
           "trunc_inside_continuation", "trunc_inside_directive", "system_exit_trapped",
           "eio_on_second_open", "eio_on_first_open", "cli_damaged_first", "cli_damaged_middle",
           "cli_damaged_last", "outcome_tree", "outcome_syntax", "faultfree_compared"]
@@ -324,6 +324,19 @@ def generate(run_seed, cfg):
         if how == "eio":
             extra_faults["inc.f90"] = {"eio_at": sw.randrange(0, len(fdata)), "eio_open": 0}
         muts = muts + [{"kind": "include_" + how, "changed": True}]
+    if kind == "file" and sw.random() < 0.10:
+        # the file changes between the reader's two opens: a prefix of itself (a writer that has
+        # not finished), itself plus more, or a different program in the other source form
+        how = sw.choice(["prefix", "longer", "other"])
+        if how == "prefix":
+            alt = data[: sw.randrange(0, max(1, len(data)))]
+        elif how == "longer":
+            alt = data + b"\n      x = 1\n      end\n"
+        else:
+            alt = ("      program other\n      integer i\nC comment\n      i = 1\n"
+                   "      end program other\n").encode()
+        faults["alt_from_open2"] = _l1(alt)
+        muts = muts + [{"kind": "changed_between_opens_" + how, "changed": True}]
     if kind != "string":
         r = sw.random()
         if r < 0.12:
@@ -470,6 +483,8 @@ def execute(case):
             io_fault = "eio_at" in file_faults or file_faults.get("noseek")
             if any(m["kind"].startswith("include_") for m in case["mutations"]):
                 probe("include_dimension")
+            if any(m["kind"].startswith("changed_between_opens") for m in case["mutations"]):
+                probe("file_changed_between_opens")
             source = "main.f90" if kind != "string" else data.decode("utf-8", "replace")
             parser = fp.create(std)
             clock.start(_budget(nlines))
@@ -528,7 +543,8 @@ def execute(case):
                     violate("C06.f faultfree-reader-kind-changes-outcome", kind,
                             {"got": fp.outcome_digest(outcome), "want": fp.outcome_digest(want)})
             kinds = tuple(sorted({m["kind"] for m in case["mutations"]} |
-                                 {k for k in file_faults if k in ("short", "eio_at", "noseek")}))
+                                 {k for k in file_faults if k in ("short", "eio_at", "noseek",
+                                                                  "alt_from_open2")}))
             state_keys.add((mode, kinds, kind, tuple(sorted(case["opts"])), outcome[0],
                             outcome[-1] if outcome[0] in ("syntax", "escape") else ""))
             fired = any(m.get("changed") for m in case["mutations"]) or bool(stats["faults"])
